@@ -304,6 +304,10 @@ func (g *gen) motif(label string) {
 		g.walRaceMotif(label)
 		return
 	}
+	if g.p.MaxSnaps > 0 && g.enabled("snap") && g.enabled("flush") && rapid.IntRange(0, 4).Draw(g.t, label+"shadow") == 0 {
+		g.shadowMotif(label)
+		return
+	}
 	m := rapid.IntRange(0, nm+1).Draw(g.t, label+"motif")
 	if m == nm+1 {
 		if !g.enabled("iternew") || g.p.MaxIters == 0 {
@@ -583,6 +587,77 @@ func (g *gen) writeOp(label string, longLived bool) Op {
 		o.V = fmt.Sprintf("l%d", g.nval)
 	}
 	return o
+}
+
+// shadowMotif: keys and the tombstone that shadows every version of their
+// prefix reach the SAME sstable with a snapshot in between (set ... snapshot
+// ... delete / delete-range ... flush), optionally pushed to the bottom level;
+// then the snapshot reads exactly those keys with Get and prefix seeks. The
+// writer marks such points obsolete inside the table; filters, obsolete-point
+// hiding and elision must all still serve the snapshot.
+func (g *gen) shadowMotif(label string) {
+	if len(g.snaps) >= g.p.MaxSnaps && len(g.snaps) > 0 {
+		id := g.snaps[0]
+		g.snaps = remove(g.snaps, id)
+		g.steps = append(g.steps, Step{K: "snapclose", ID: id})
+	}
+	pi := rapid.IntRange(0, len(Prefixes)-2).Draw(g.t, label+"shp")
+	pre := Prefixes[pi]
+	if rapid.Bool().Draw(g.t, label+"shlow") {
+		// older versions of the prefix in a lower level first
+		g.nval++
+		o := Op{K: "set", A: mkKey(pre, rapid.IntRange(0, MaxSuffix).Draw(g.t, label+"shs0")), V: fmt.Sprintf("v%d", g.nval)}
+		g.steps = append(g.steps, Step{K: "write", Ops: []Op{o}, Sync: true}, Step{K: "flush"})
+		g.commitOps([]Op{o})
+		g.memDirty, g.unsyncd = false, false
+		if g.enabled("compact") && rapid.Bool().Draw(g.t, label+"shc0") {
+			g.steps = append(g.steps, Step{K: "compact", A: Prefixes[0], B: "z"})
+		}
+	}
+	var keys []string
+	for i, n := 0, rapid.IntRange(1, 3).Draw(g.t, label+"shn"); i < n; i++ {
+		g.nval++
+		o := Op{K: "set", A: mkKey(pre, rapid.IntRange(0, MaxSuffix).Draw(g.t, fmt.Sprintf("%sshs%d", label, i))), V: fmt.Sprintf("v%d", g.nval)}
+		keys = append(keys, o.A)
+		g.steps = append(g.steps, Step{K: "write", Ops: []Op{o}, Sync: true})
+		g.commitOps([]Op{o})
+	}
+	sid := g.newID()
+	g.snaps = append(g.snaps, sid)
+	g.steps = append(g.steps, Step{K: "snap", ID: sid})
+	var tomb []Op
+	if g.p.OpW["delrange"] > 0 && rapid.Bool().Draw(g.t, label+"shdr") {
+		tomb = []Op{{K: "delrange", A: pre, B: Prefixes[pi+1]}}
+	} else {
+		seen := map[string]bool{}
+		for _, k := range keys {
+			if !seen[k] {
+				seen[k] = true
+				tomb = append(tomb, Op{K: "del", A: k})
+			}
+		}
+	}
+	g.steps = append(g.steps, Step{K: "write", Ops: tomb, Sync: true})
+	g.commitOps(tomb)
+	g.steps = append(g.steps, Step{K: "flush"})
+	g.memDirty, g.unsyncd = false, false
+	if g.enabled("compact") && rapid.Bool().Draw(g.t, label+"shc1") {
+		g.steps = append(g.steps, Step{K: "compact", A: Prefixes[0], B: "z"})
+	}
+	for _, k := range keys {
+		g.steps = append(g.steps, Step{K: "get", On: "snap", ID2: sid, A: k})
+	}
+	io := IterOpts{}
+	g.steps = append(g.steps, Step{K: "scan", On: "snap", ID2: sid, IO: &io, Flag: rapid.Bool().Draw(g.t, label+"shrev")})
+	if g.enabled("iternew") && len(g.iters) < g.p.MaxIters {
+		it := Step{K: "iternew", ID: g.newID(), On: "snap", ID2: sid, IO: &IterOpts{}}
+		for _, k := range keys {
+			it.IOps = append(it.IOps, IterOp{Op: "seekprefixge", Key: k}, IterOp{Op: "next"})
+		}
+		g.iters = append(g.iters, it.ID)
+		g.iterOn[it.ID] = "snap"
+		g.steps = append(g.steps, it)
+	}
 }
 
 // walRaceMotif: acknowledged synced commits sit in a WAL whose memtable is being
